@@ -45,6 +45,34 @@ def CACHE_REF_OF(f, uf_call):
     return muts[0] if len(muts) == 1 else None
 
 
+def helpers_of(f, uf_call):
+    """UserFunctions::call and the helpers that only it (or another such helper) calls"""
+    from mir import callee_of
+
+    def root_of(d):
+        while f.bodies.get(d, {}).get("parent"):
+            d = f.bodies[d]["parent"]
+        return d
+    callers = {}
+    for d, b in f.bodies.items():
+        for blk in b["blocks"]:
+            t = blk["term"]
+            if t["k"] == "call":
+                c = callee_of(t)
+                p_ = c and (c.get("resolved") or c["path"])
+                if p_ in f.bodies:
+                    callers.setdefault(root_of(p_), set()).add(root_of(d))
+    exempt = {uf_call}
+    grew = True
+    while grew:
+        grew = False
+        for g, cs in callers.items():
+            if g not in exempt and cs and cs <= exempt:
+                exempt.add(g)
+                grew = True
+    return exempt
+
+
 def cache_touch_sites(f, uf_call):
     """calls of non-local functions that receive the cache object, in bodies other than UserFunctions::call
     (local taint: the cache is a parameter / captured variable / struct field of type &mut BTreeMap<String, Value>,
@@ -304,38 +332,33 @@ def run(res, f, tier):
         pth, _it = evalsum.run_async_fn(f, caller, argn, opaque=lambda p, callee=callee: p == callee)
         cs = [[c for c in calls_of(s_) if c[1] == short_callee(callee)] for s_, _ in pth]
         own_cache = ["cache"] if "cache" in argn else ["self.%s" % n_ for n_ in cache_fields]
-        good = len(cs) == 1 and len(cs[0]) == 1 and list(cs[0][0][3:]) in [["name", "params", oc] for oc in own_cache]
+        # on every path at most one call, always with the caller's own name / argument / cache; at least one path calls
+        # (a path that fails before calling — no ruleset, unknown function — is fine)
+        calling = [c_ for c_ in cs if c_]
+        good = bool(calling) and all(len(c_) == 1 and list(c_[0][3:]) in [["name", "params", oc] for oc in own_cache] for c_ in calling)
         ob(good, "C11|thread|%s" % short_callee(caller),
            "%s must hand the name, the argument and the cache it was given on to %s unchanged: %s" % (short_callee(caller), short_callee(callee), cs))
-    evaluator = evalsum.find_evaluator(f)
-    ctx_new = A["ctx_new"]
-    outs, _ = evalsum.summarize_fn(f, ctx_new, arg_names=["ruleset", "function_cache", "facts"])
-    ob(len(outs) == 1 and outs[0][1] == "EvalContext(ruleset, function_cache, facts)", "C11|thread|EvalContext::new", "EvalContext::new must store its arguments unchanged: %s" % [o[1] for o in outs])
-    eval_rule = A["eval_rule"]
-    p4, it4 = evalsum.run_async_fn(f, eval_rule, ["self", "ruleset", "function_cache", "facts"], opaque=lambda p: p in (evaluator[0], ctx_new))
-    c4 = [[c for c in calls_of(s) if c[1] == SH["ctx_new"]] for s, _ in p4]
-    ob(c4 == [[("call", SH["ctx_new"], "ruleset", "function_cache", "facts")]], "C11|thread|eval_rule", "per-rule evaluation must use the ruleset, cache and input it was given: %s" % c4)
-    expr_eval = A["expr_eval"]
-    p5, it5 = evalsum.run_async_fn(f, expr_eval, ["self", "facts"], opaque=lambda p: p in (evaluator[0], ctx_new))
-    # a fresh cache = the result of a call without arguments (BTreeMap::new(), FunctionCache::new(), ::default()),
-    # made once in this body
-    FRESH = re.compile(r"^[\w:<>, ]+\(\)$")
-    c5 = [[c for c in calls_of(s) if c[1] == SH["ctx_new"] or (len(c) == 2 and FRESH.match(c[1] + "()"))] for s, _ in p5]
-    ob(len(c5) == 1 and any(c[1] == SH["ctx_new"] and FRESH.match(c[3]) and c[4] == "facts" and sum(1 for x in c5[0] if len(x) == 2 and x[1] + "()" == c[3]) == 1 for c in c5[0]),
-       "C11|fresh|Expr::evaluate", "a stand-alone expression evaluation must start from a fresh cache: %s" % c5)
+    # ---- where the cache comes from and how long it lives (whatever the architecture): interprocedural taint from every
+    # place that creates a value of the cache type to the cache parameter of the function table (rules/cacheflow.py)
+    import cacheflow
+    CR_ = CACHE_REF_OF(f, uf_call)
+    CM_ = CR_[5:]
+    ctypes = {CR_, CM_} | ({"&" + CM_} if CM_ in f.adts else set())
     ev_value = find1(f, lambda d, b: b["name"] == "evaluate_value" and (b.get("impl") or {}).get("self_s") == "ruleset::RuleSet", "RuleSet::evaluate_value")
-    p6, it6 = evalsum.run_async_fn(f, ev_value, ["self", "facts"], opaque=lambda p: p == eval_rule)
-    fresh_ok = True
-    for s, _ in p6:
-        calls = calls_of(s)
-        rules = [i for i, c in enumerate(calls) if c[1] == SH["eval_rule"]]
-        shared = set(calls[i][4] for i in rules)
-        if rules:
-            x = next(iter(shared))
-            news = [i for i, c in enumerate(calls) if len(c) == 2 and c[1] + "()" == x]
-            if len(shared) != 1 or not FRESH.match(x) or len(news) != 1 or any(i < news[0] for i in rules):
-                fresh_ok = False
-    ob(fresh_ok and len(p6) >= 3, "C11|fresh|evaluate_value", "one ruleset evaluation must create exactly one cache, before its first rule, and share it with every rule")
+    ev_any = find1(f, lambda d, b: b["name"] == "evaluate" and (b.get("impl") or {}).get("self_s") == "ruleset::RuleSet", "RuleSet::evaluate")
+    expr_eval = A["expr_eval"]
+    reach = evalsum.reachable_mono(f, [ev_value, ev_any, expr_eval])
+    creations, touched = cacheflow.analyse(f, uf_call, ctypes, [ev_value, expr_eval], reach)
+    feeding = [c for c in creations if c["reaches_consumer"]]
+    per_iter = [c for c in feeding if c["in_loop"] or c["under_loop"]]
+    ob(not per_iter, "C11|cache-per-evaluation",
+       "a function cache is created inside a loop, or in a function that is called from inside a loop (per rule / per call instead of once per evaluation): %s"
+       % [(c["fn"], c["span"]) for c in per_iter], {"creations": [(c["fn"], c["span"], c["callee"]) for c in feeding]})
+    for E, what in ((ev_value, "evaluate_value"), (expr_eval, "Expr::evaluate")):
+        local_reach = set(evalsum.reachable_local(f, [E]))
+        mine = [c for c in feeding if c["root"] in local_reach]
+        ob(len(mine) >= 1, "C11|fresh|%s" % what, "%s must start from a cache created during that call (nothing is remembered from one evaluation to the next): "
+           "no creation of a cache that reaches the function table is found below it" % what, {"creations_below": [(c["fn"], c["span"]) for c in mine]})
     # no other function hands out or stores a cache: the only calls of UserFunctions::call / creations feeding it are the ones above
     callers = set()
     for d, b in f.bodies.items():
@@ -349,10 +372,11 @@ def run(res, f, tier):
     ob(callers == {route[-2]}, "C11|single-route", "UserFunctions::call must be reached only through %s: %s" % (short_callee(route[-2]), sorted(callers)))
     # who may touch the cache: outside UserFunctions::call the cache object is only handed on to crate-local functions;
     # no other body reads or writes it (a second, differently keyed use of the same map breaks "per argument")
-    touch, roots_seen = cache_touch_sites(f, uf_call)
+    exempt = helpers_of(f, uf_call)
+    touch = sorted(set("%s calls %s at %s" % (d_, short_callee(c_), sp_) for d_, c_, sp_ in touched if cacheflow.root_of(f, d_) not in exempt))
     ob(not touch, "C11|cache-access", "the function cache is read or written outside UserFunctions::call: %s" % touch[:4], {"sites": touch[:10]})
-    if roots_seen < 4:
-        raise Inconclusive("the cache object was found in only %d bodies (expected its route through at least 4)" % roots_seen)
+    if not feeding:
+        raise Inconclusive("no creation of a cache reaches the function table (the cache object was not found)")
     res.coverage = {
         "explanation": "All %d paths of UserFunctions::call's coroutine body were enumerated with their ordered cache/user calls and conditions and checked against the "
                        "transparency rules; the cache object's route from its two creation sites down to UserFunctions::call was checked function by function." % len(paths),
